@@ -10,5 +10,8 @@ open AgdbSearch
 #print axioms C14_terminates
 #print axioms C14_graph_exact
 #print axioms C14_graph_terminates
+#print axioms C14_bfs_distance
+#print axioms C14_dfs_order
+#print axioms C14_dfs_order_unique
 #print axioms C14_edge_origin_counterexample
 #print axioms C14_edge_origin_unreachable
